@@ -676,7 +676,67 @@ pub fn graphemes_reference(text: &str) -> Vec<(String, usize, usize)> {
     text.grapheme_indices(true).map(|(i, g)| (g.to_string(), i, i + g.len())).collect()
 }
 
+/// Shapes 3 and 4: parsers other than `any()` consume the clusters — literal sequences (`just("..")`
+/// with strings that are whole clusters, prefixes of clusters, or several clusters) and the text
+/// parsers — each reporting the span it consumed, `any()` as the last alternative. Whatever they
+/// accept, a Graphemes input only ever hands out whole extended grapheme clusters, so every span must
+/// begin and end on a cluster boundary of the string and the spans must tile it.
+pub fn graphemes_spans_via_chumsky(text: &str, shape: u8) -> Result<Vec<(usize, usize)>, String> {
+    use chumsky::prelude::*;
+    use chumsky::text::unicode::{Grapheme, Graphemes};
+    type E<'a> = extra::Err<Rich<'a, &'a Grapheme>>;
+    let r = catch_unwind(AssertUnwindSafe(|| {
+        let inp = Graphemes::new(text);
+        let sp = |s: SimpleSpan<usize>| (s.start, s.end);
+        let res = if shape == 3 {
+            let lit = |l: &'static str| just::<&'static str, &Graphemes, E>(l).to_span().map(sp);
+            choice((lit("e"), lit("\r"), lit("a"), lit("\u{1F1E9}"), lit("\u{1F468}"), lit("z\u{308}"), lit("\r\n"), lit("0"), lit("\u{1100}"), lit("ab"), any::<&Graphemes, E>().to_span().map(sp)))
+                .repeated()
+                .collect::<Vec<_>>()
+                .parse(inp)
+                .into_result()
+        } else {
+            choice((
+                chumsky::text::whitespace::<&Graphemes, E>().at_least(1).to_span().map(sp).boxed(),
+                chumsky::text::ascii::ident::<&Graphemes, E>().to_span().map(sp).boxed(),
+                chumsky::text::int::<&Graphemes, E>(10).to_span().map(sp).boxed(),
+                any::<&Graphemes, E>().to_span().map(sp).boxed(),
+            ))
+            .repeated()
+            .collect::<Vec<_>>()
+            .parse(inp)
+            .into_result()
+        };
+        res.map_err(|e| format!("rejected: {} error(s)", e.len()))
+    }));
+    match r {
+        Ok(x) => x,
+        Err(_) => Err(format!("panicked: {}", hook::take_panic())),
+    }
+}
+
 pub fn graphemes_check(text: &str, shape: u8) -> Option<(String, String)> {
+    if shape >= 3 {
+        let want = graphemes_reference(text);
+        let bounds: std::collections::BTreeSet<usize> = std::iter::once(0).chain(want.iter().map(|c| c.2)).collect();
+        let exp = format!("spans that tile 0..{} and lie on the cluster boundaries {:?}", text.len(), bounds);
+        return match graphemes_spans_via_chumsky(text, shape) {
+            Err(e) => Some((exp, e)),
+            Ok(spans) => {
+                let mut at = 0usize;
+                for (a, b) in &spans {
+                    if *a != at || b <= a || !bounds.contains(b) {
+                        return Some((exp, format!("{:?}", spans)));
+                    }
+                    at = *b;
+                }
+                if at != text.len() {
+                    return Some((exp, format!("{:?}", spans)));
+                }
+                None
+            }
+        };
+    }
     let want = graphemes_reference(text);
     // shape 1's first alternative legitimately succeeds when the text ends in a "0" cluster preceded by no other "0"
     let got = graphemes_via_chumsky(text, shape);
@@ -1036,7 +1096,7 @@ impl Engine for SrcSim {
             let mut d = 77u64;
             for _ in 0..6 {
                 let text = gen_grapheme_text(&mut rng);
-                for shape in 0..3u8 {
+                for shape in 0..5u8 {
                     acc.inc("evaluations.replica_runs");
                     acc.inc("replica_runs.Graphemes");
                     d = fold(d, crate::prng::fold_bytes(shape as u64, text.as_bytes()));
